@@ -100,14 +100,17 @@ def fresh_draws(c, ncalls, hash_name, same):
     return len(w.draws)
 
 
-@harness(P, per_job=True, params=lambda tier: [dict(alg=a, hash_name=h, rkid=r) for a, h, r in ([("DH", "SHA256", False), ("ECDH_P256", "SHA512", True), ("ECDH_P521", "SHA384", False)] if tier == "quick" else
-                                                                        [("DH", "SHA1", True), ("DH", "SHA256", False), ("ECDH_P256", "SHA512", True), ("ECDH_P256", "SHA256", False), ("ECDH_P384", "SHA384", False), ("ECDH_P521", "SHA1", True), ("ECDH_P521", "SHA512", False)])],
+@harness(P, per_job=True, params=lambda tier: [dict(alg=a, hash_name=h, rkid=r) for a, h, r in ([("DH", "SHA256", False), ("ECDH_P256", "SHA512", True), ("ECDH_P521", "SHA384", False), ("DH/g=1", "SHA256", True), ("DH/g=p-1", "SHA1", False)] if tier == "quick" else
+                                                                        [("DH", "SHA1", True), ("DH", "SHA256", False), ("ECDH_P256", "SHA512", True), ("ECDH_P256", "SHA256", False), ("ECDH_P384", "SHA384", False), ("ECDH_P521", "SHA1", True), ("ECDH_P521", "SHA512", False), ("DH/g=1", "SHA256", True), ("DH/g=p-1", "SHA1", False)])],
          raises=(ScalarOutOfRange,), max_steps=3000000,
          bounds="public-key mode (DH over a 32-bit group, ECDH P256/P384/P521): 3 consecutive protect calls with identical arguments for a caller who only receives the group public key "
          "(the same KeyCache object in every call, with or without an explicit root key id; the DC stub returns the same public-key envelope whenever asked); each blob's ephemeral public key must be the group element of a private key that is an RNG draw "
          "(ceil(private_key_length/8) bytes) no other blob or role uses, CEK and GCM nonce likewise", outside="longer sequences",
          must_reach=("public-key mode: ephemeral key, CEK and nonce are RNG output",))
 def fresh_draws_public(c, alg, hash_name, rkid):
+    # "DH/g=1", "DH/g=p-1": the group public key the DC hands out carries the right prime but a degenerate generator (not the one of the secret agreement parameters):
+    # the library may refuse it; if it emits blobs, their ephemeral keys must still be fresh
+    alg, _, keygen = alg.partition("/g=")
     import uuid
 
     from dpapi_ng import _client, _gkdi
@@ -129,7 +132,8 @@ def fresh_draws_public(c, alg, hash_name, rkid):
         # a small group keeps the element comparisons cheap for the solver; the code under test is indifferent to the group size
         prm = _gkdi.FFCDHParameters(4, 0xFFFFFFFB, 5)
         y = w.algebra.pow(prm.generator, x, prm.field_order)
-        pub = refs.ref_ffcdh_key(prm.key_length, prm.field_order, prm.generator, y)
+        kg = {"": prm.generator, "1": 1, "p-1": prm.field_order - 1}[keygen]
+        pub = refs.ref_ffcdh_key(prm.key_length, prm.field_order, kg, y)
         sec_params, publen = prm.pack(), 32
     else:
         cname = {"ECDH_P256": "secp256r1", "ECDH_P384": "secp384r1", "ECDH_P521": "secp521r1"}[alg]
@@ -140,8 +144,15 @@ def fresh_draws_public(c, alg, hash_name, rkid):
     cache = dpapi_ng.KeyCache()
     pt = c.bytes("pt", 9)
     conds, used, eph_used = [], [], []
+    refused = 0
     for i in range(3):
-        blob = c.call(dpapi_ng.ncrypt_protect_secret, pt, e2e.SIDS[0], server="dc", cache=cache, root_key_identifier=e2e.RK if rkid else None)
+        try:
+            blob = c.call(dpapi_ng.ncrypt_protect_secret, pt, e2e.SIDS[0], server="dc", cache=cache, root_key_identifier=e2e.RK if rkid else None)
+        except ValueError:
+            if not keygen:
+                raise
+            refused += 1
+            continue
         b = c.call(_blob.DPAPINGBlob.unpack, blob)
         cs, us = _material(c, w, blob, public=True)
         conds += cs + [b.key_identifier.is_public_key]
@@ -168,7 +179,8 @@ def fresh_draws_public(c, alg, hash_name, rkid):
         if hit is not None:
             eph_used.append(hit)
     c.check(all_of(conds), "public-key mode: ephemeral key, CEK and nonce are RNG output")
-    c.check(len(used) == 6 and len(eph_used) == 3 and _disjoint(used + eph_used), "no RNG output is used twice (across calls and roles)")
+    n_ok = 3 - refused
+    c.check(len(used) == 2 * n_ok and len(eph_used) == n_ok and _disjoint(used + eph_used), "no RNG output is used twice (across calls and roles)")
     return len(w.draws)
 
 
@@ -196,4 +208,35 @@ def many_calls(c, ncalls, hash_name):
             conds.append(seq_eq(out, pt))
     c.check(all_of(conds), "long history: every blob's CEK, nonce and key-identifier nonce are RNG output")
     c.check(len(used) == 3 * ncalls and _disjoint(used), "long history: no RNG output is used twice")
+    return len(w.draws)
+
+
+@harness(P, per_job=True, params=[dict(hash_name="SHA256")], max_steps=6000000,
+         bounds="a process that forks: after one protect call the module-level state of the library is captured; the parent makes a protect call, the state is put back to the "
+         "captured one (what the child inherited) and the child makes a protect call, the RNG giving the two processes different output: the three blobs must not share any RNG "
+         "output (no pool, batch or memo filled before the fork may be consumed on both sides)", outside="state kept outside the library's modules",
+         must_reach=("fork: parent and child share no RNG output",))
+def fork_history(c, hash_name):
+    from vlib import api
+
+    lo, hi = e2e.window(361, 9, 9, -10, -10)
+    w = e2e.new_world(c, lo, lo)
+    root = c.bytes("root", 64)
+    cache = e2e.loaded_cache(c, root, hash_name)
+    pt = c.bytes("pt", 5)
+    conds, used = [], []
+
+    def protect():
+        blob = c.call(dpapi_ng.ncrypt_protect_secret, pt, e2e.SIDS[0], root_key_identifier=e2e.RK, cache=cache)
+        cs, us = _material(c, w, blob)
+        conds.extend(cs)
+        used.extend(us)
+
+    protect()
+    inherited = api.ModuleState.capture()
+    protect()  # parent
+    api.ModuleState.apply(inherited)
+    protect()  # child
+    c.check(all_of(conds), "fork: every blob's CEK, nonce and key-identifier nonce are RNG output")
+    c.check(len(used) == 9 and _disjoint(used), "fork: parent and child share no RNG output")
     return len(w.draws)
